@@ -9,6 +9,8 @@ use std::sync::Arc;
 /// a (ValueType -> ValueType) reference
 pub trait RefVV: Send + Sync {
 	fn next(&mut self, x: f64) -> Q;
+	/// the same with an input that carries a radius (compositions inside indicators)
+	fn stepq(&mut self, x: Q) -> Q;
 	fn box_clone(&self) -> Box<dyn RefVV>;
 }
 impl Clone for Box<dyn RefVV> {
@@ -21,6 +23,9 @@ macro_rules! refvv {
 		impl RefVV for $t {
 			fn next(&mut self, x: f64) -> Q {
 				self.step(Q::exact(x))
+			}
+			fn stepq(&mut self, x: Q) -> Q {
+				self.step(x)
 			}
 			fn box_clone(&self) -> Box<dyn RefVV> {
 				Box::new(self.clone())
@@ -98,7 +103,10 @@ pub struct Trima {
 }
 impl Trima {
 	pub fn new(n: usize, v0: f64) -> Self {
-		Self { a: sma(n, v0), b: sma(n, v0) }
+		Self::new_q(n, Q::exact(v0))
+	}
+	pub fn new_q(n: usize, pad: Q) -> Self {
+		Self { a: Fir::new(w_sma(n), pad), b: Fir::new(w_sma(n), pad) }
 	}
 	pub fn step(&mut self, x: Q) -> Q {
 		let y = self.a.step(x);
@@ -116,8 +124,11 @@ pub struct Hma {
 }
 impl Hma {
 	pub fn new(n: usize, v0: f64) -> Self {
+		Self::new_q(n, Q::exact(v0))
+	}
+	pub fn new_q(n: usize, pad: Q) -> Self {
 		let s = (n as f64).sqrt().floor() as usize;
-		Self { a: wma(n / 2, v0), b: wma(n, v0), c: wma(s, v0) }
+		Self { a: Fir::new(w_wma(n / 2), pad), b: Fir::new(w_wma(n), pad), c: Fir::new(w_wma(s), pad) }
 	}
 	pub fn step(&mut self, x: Q) -> Q {
 		let w1 = self.a.step(x);
@@ -160,7 +171,10 @@ pub enum WinKind {
 }
 impl Win {
 	pub fn new(kind: WinKind, n: usize, v0: f64) -> Self {
-		let input = if n == 0 { Ser::exact(v0) } else { Ser::exact_cap(v0, n + 2) };
+		Self::new_q(kind, n, Q::exact(v0))
+	}
+	pub fn new_q(kind: WinKind, n: usize, pad: Q) -> Self {
+		let input = if n == 0 { Ser::new(pad) } else { Ser::with_cap(pad, n + 2) };
 		Self { n, input, kind }
 	}
 	pub fn step(&mut self, x: Q) -> Q {
@@ -186,7 +200,8 @@ impl Win {
 				} else {
 					let w = s.last_n(n);
 					let v: f64 = w.iter().map(|q| q.v).sum();
-					Q::new(v, win_allow(t, n, n as f64, m))
+					let rin: f64 = w.iter().map(|q| q.r).sum();
+					Q::new(v, win_allow(t, n, n as f64, m) + rin)
 				}
 			}
 			WinKind::Derivative => (s.back(0) - s.back(n)).scale(1.0 / n as f64),
@@ -198,14 +213,16 @@ impl Win {
 				let mean: f64 = w.iter().map(|q| q.v).sum::<f64>() / n as f64;
 				let var: f64 = w.iter().map(|q| (q.v - mean) * (q.v - mean)).sum::<f64>() / (n as f64 - 1.0);
 				// running sum and sum of squares: quadratic in the magnitude
-				Q::new(var, win_allow(t, n, 2.0 * n as f64 / (n as f64 - 1.0), m * m))
+				let rin = w.iter().map(|q| q.r).fold(0.0f64, f64::max);
+				Q::new(var, win_allow(t, n, 2.0 * n as f64 / (n as f64 - 1.0), m * m) + 8.0 * m * rin)
 			}
 			WinKind::MeanAbsDev => mean_abs_dev(s, n),
 			WinKind::MedianAbsDev => {
 				let w = s.last_n(n);
 				let med = median(&w.iter().map(|q| q.v).collect::<Vec<_>>());
 				let v: f64 = w.iter().map(|q| (q.v - med).abs()).sum::<f64>() / n as f64;
-				Q::new(v, 16.0 * crate::eps() * (n + 8) as f64 * m)
+				let rin = w.iter().map(|q| q.r).fold(0.0f64, f64::max);
+				Q::new(v, 16.0 * crate::eps() * (n + 8) as f64 * m + 2.0 * rin)
 			}
 			WinKind::Cci => {
 				let mean = fir(&s.last_n(n), &vec![1.0; n], t, m);
@@ -227,7 +244,8 @@ impl Win {
 					mm = mm.max(d);
 				}
 				// history magnitude of the changes is at most 2 * magnitude of the values
-				Q::new(v, win_allow(t, n, n as f64, 2.0 * m))
+				let rin: f64 = w.iter().map(|q| q.r).sum();
+				Q::new(v, win_allow(t, n, n as f64, 2.0 * m) + 2.0 * rin)
 			}
 		}
 	}
@@ -301,7 +319,11 @@ pub enum CascadeKind {
 }
 impl EmaCascade {
 	pub fn new(kind: CascadeKind, n: usize, v0: f64) -> Self {
-		Self { kind, e: [Ema::new(n, v0), Ema::new(n, v0), Ema::new(n, v0)] }
+		Self::new_q(kind, n, Q::exact(v0))
+	}
+	pub fn new_q(kind: CascadeKind, n: usize, pad: Q) -> Self {
+		let a = 2.0 / (n as f64 + 1.0);
+		Self { kind, e: [Ema::with_alpha(a, pad), Ema::with_alpha(a, pad), Ema::with_alpha(a, pad)] }
 	}
 	pub fn step(&mut self, x: Q) -> Q {
 		let e1 = self.e[0].step(x);
@@ -361,7 +383,10 @@ pub struct Vidya {
 }
 impl Vidya {
 	pub fn new(n: usize, v0: f64) -> Self {
-		Self { n, input: Ser::exact_cap(v0, n + 2), y: Q::exact(v0) }
+		Self::new_q(n, Q::exact(v0))
+	}
+	pub fn new_q(n: usize, pad: Q) -> Self {
+		Self { n, input: Ser::with_cap(pad, n + 2), y: pad }
 	}
 	pub fn step(&mut self, x: Q) -> Q {
 		self.input.push(x);
@@ -370,6 +395,11 @@ impl Vidya {
 		let (mut up, mut dn) = (0.0f64, 0.0f64);
 		let mut mm: f64 = 0.0;
 		let mut any = false;
+		let rin: f64 = w.iter().map(|q| if q.r.is_finite() { q.r } else { f64::INFINITY }).sum();
+		if !rin.is_finite() {
+			self.y = Q::undefined();
+			return self.y;
+		}
 		for i in 1..w.len() {
 			let d = w[i].v - w[i - 1].v;
 			if d > 0.0 {
@@ -382,13 +412,18 @@ impl Vidya {
 			mm = mm.max(d.abs());
 		}
 		if !any {
+			if rin > 0.0 {
+				// inputs known only up to a radius: the flat-window predicate cannot be decided
+				self.y = Q::undefined();
+				return self.y;
+			}
 			// exact predicate: every one of the last n changes is exactly zero
 			self.y = x;
 			return self.y;
 		}
 		let f = 2.0 / (n as f64 + 1.0);
 		// running sums of the implementation: allowance over the whole history of changes
-		let allow = win_allow(self.input.t(), n, 1.0, 2.0 * self.input.mag);
+		let allow = win_allow(self.input.t(), n, 1.0, 2.0 * self.input.mag) + 2.0 * rin;
 		let upq = Q::new(up, allow);
 		let dnq = Q::new(dn, allow);
 		let cmo = ((upq - dnq) / (upq + dnq)).abs();
@@ -418,8 +453,18 @@ impl Sel {
 	pub fn new(n: usize, v0: f64) -> Self {
 		Self { n, input: Ser::exact_cap(v0, n + 2) }
 	}
+	pub fn new_q(n: usize, pad: Q) -> Self {
+		Self { n, input: Ser::with_cap(pad, n + 2) }
+	}
 	pub fn push(&mut self, x: f64) {
 		self.input.pushv(x);
+	}
+	pub fn pushq(&mut self, x: Q) {
+		self.input.push(x);
+	}
+	/// largest radius among the window elements (a selection is as uncertain as its inputs)
+	pub fn rad(&self) -> f64 {
+		self.input.last_n(self.n).iter().map(|q| q.r).fold(0.0, f64::max)
 	}
 	fn vals(&self) -> Vec<f64> {
 		self.input.last_n(self.n).iter().map(|q| q.v).collect()
@@ -611,5 +656,40 @@ impl HeikinAshi {
 		let close = c.ohlc4();
 		self.next_open = (open + close).scale(0.5);
 		(open, Q::exact(c.h).max(open), Q::exact(c.l).min(open), close)
+	}
+}
+
+
+/// median of the last n values as a moving average (exact selection; inputs may carry a radius)
+#[derive(Clone, Debug)]
+pub struct Smm(pub Sel);
+impl Smm {
+	pub fn step(&mut self, x: Q) -> Q {
+		self.0.pushq(x);
+		Q::new(self.0.median(), self.0.rad())
+	}
+}
+refvv!(Smm);
+
+pub const MA_KINDS: [&str; 15] = ["sma", "wma", "hma", "rma", "ema", "dma", "dema", "tma", "tema", "wsma", "smm", "swma", "trima", "linreg", "vidya"];
+
+/// reference of a moving-average kind of the `MA` constructor, started at `pad`
+pub fn ma_q(kind: &str, n: usize, pad: Q) -> Box<dyn RefVV> {
+	match kind {
+		"sma" => Box::new(Fir::new(w_sma(n), pad)),
+		"wma" => Box::new(Fir::new(w_wma(n), pad)),
+		"swma" => Box::new(Fir::new(w_swma(n), pad)),
+		"linreg" | "lin_reg" => Box::new(Fir::new(w_linreg(n), pad)),
+		"trima" => Box::new(Trima::new_q(n, pad)),
+		"hma" => Box::new(Hma::new_q(n, pad)),
+		"ema" => Box::new(Ema::with_alpha(2.0 / (n as f64 + 1.0), pad)),
+		"rma" | "wsma" => Box::new(Ema::with_alpha(1.0 / n as f64, pad)),
+		"dma" => Box::new(EmaCascade::new_q(CascadeKind::Dma, n, pad)),
+		"tma" => Box::new(EmaCascade::new_q(CascadeKind::Tma, n, pad)),
+		"dema" => Box::new(EmaCascade::new_q(CascadeKind::Dema, n, pad)),
+		"tema" => Box::new(EmaCascade::new_q(CascadeKind::Tema, n, pad)),
+		"smm" => Box::new(Smm(Sel::new_q(n, pad))),
+		"vidya" => Box::new(Vidya::new_q(n, pad)),
+		_ => panic!("unknown MA kind {kind}"),
 	}
 }
